@@ -29,6 +29,9 @@ type c18In struct {
 	Tz     string `json:"tz,omitempty"`  // "" = utc
 	OneArg bool   `json:"one_arg,omitempty"`
 	Class  string `json:"class,omitempty"` // how the instant / string was chosen (informational)
+	// a sequence case: ONE compiled expression evaluated on these values of {0}, in this order
+	Seq []string `json:"seq,omitempty"`
+	Dir string   `json:"dir,omitempty"` // ascending | descending (informational)
 }
 
 type c18Out struct {
@@ -184,19 +187,46 @@ func c18Expr(in c18In) string {
 	return ""
 }
 
-func c18Impl(in c18In) (out string) {
-	defer func() {
-		if e := recover(); e != nil {
-			out = "<<PANIC>> " + fmt.Sprint(e)
+// compiles the expression ONCE and evaluates the compiled expression on every argument, in order
+func c18ImplSeq(in c18In, args []string) (outs []string) {
+	outs = make([]string, len(args))
+	var c *expressions.CompiledKeyBuilder
+	func() {
+		defer func() {
+			if e := recover(); e != nil {
+				c = nil
+				for i := range outs {
+					outs[i] = "<<PANIC>> " + fmt.Sprint(e)
+				}
+			}
+		}()
+		kb := stdlib.NewStdKeyBuilder()
+		cc, err := kb.Compile(c18Expr(in))
+		if err != nil {
+			for i := range outs {
+				outs[i] = compileError
+			}
+			return
 		}
+		c = cc
 	}()
-	kb := stdlib.NewStdKeyBuilder()
-	c, err := kb.Compile(c18Expr(in))
-	if err != nil {
-		return compileError
+	if c == nil {
+		return
 	}
-	return c.BuildKey(&expressions.KeyBuilderContextArray{Elements: []string{in.Arg}})
+	for i, a := range args {
+		func() {
+			defer func() {
+				if e := recover(); e != nil {
+					outs[i] = "<<PANIC>> " + fmt.Sprint(e)
+				}
+			}()
+			outs[i] = c.BuildKey(&expressions.KeyBuilderContextArray{Elements: []string{a}})
+		}()
+	}
+	return
 }
+
+func c18Impl(in c18In) string { return c18ImplSeq(in, []string{in.Arg})[0] }
 
 func zc(i int64) string { return fmt.Sprintf("(%d)%%Z", i) }
 
@@ -213,9 +243,10 @@ func namesCoq(m map[string]int64) string {
 	return CoqList(parts)
 }
 
-func c18Case(in c18In) Case {
+// one evaluation: the Coq term (input + oracle values + the implementation's output), tags
+func c18Term(in c18In, implOut string) (string, c18Out, []string, bool) {
 	loadZones()
-	o := c18Out{Out: c18Impl(in), Notes: map[string]string{}}
+	o := c18Out{Out: implOut, Notes: map[string]string{}}
 	tags := []string{"kind=" + in.Kind}
 	if in.Class != "" {
 		tags = append(tags, "class="+in.Class)
@@ -336,8 +367,36 @@ func c18Case(in c18In) Case {
 	if len(o.Notes) == 0 {
 		o.Notes = nil
 	}
+	return coq, o, tags, nontrivial
+}
+
+func c18Case(in c18In) Case {
 	kb, _ := json.Marshal(in)
-	return Case{Coq: coq, Desc: map[string]any{"input": in, "impl": o}, Key: string(kb), Nontrivial: nontrivial, Tags: tags}
+	if len(in.Seq) == 0 {
+		coq, o, tags, nontrivial := c18Term(in, c18Impl(in))
+		return Case{Coq: "c1 (" + coq + ")", Desc: map[string]any{"input": in, "impl": o}, Key: string(kb), Nontrivial: nontrivial, Tags: tags}
+	}
+	// one compiled expression, many instants
+	outs := c18ImplSeq(in, in.Seq)
+	terms := make([]string, len(in.Seq))
+	items := make([]c18Out, len(in.Seq))
+	seen := map[string]bool{}
+	tags := []string{"sequence", "sequence-of=" + in.Kind, "sequence-" + in.Dir, fmt.Sprintf("sequence-len=%d", len(in.Seq))}
+	for i, a := range in.Seq {
+		it := in
+		it.Seq, it.Arg = nil, a
+		coq, o, tg, _ := c18Term(it, outs[i])
+		terms[i], items[i] = coq, o
+		for _, t := range tg {
+			if !seen[t] && !strings.HasPrefix(t, "kind=") {
+				seen[t] = true
+				tags = append(tags, t)
+			}
+		}
+	}
+	tags = append([]string{"kind=sequence"}, tags...)
+	return Case{Coq: "cs [" + strings.Join(terms, "; ") + "]", Desc: map[string]any{"input": in, "impl": map[string]any{"outs": outs, "items": items}},
+		Key: string(kb), Nontrivial: true, Tags: tags}
 }
 
 // ---------------------------------------------------------------- generators
@@ -700,12 +759,125 @@ func c18Exhaustive(tier string) []Case {
 	return cases
 }
 
+// ---- sequences: one compiled expression walking second by second through a breakpoint ----
+func seqInstants(t int64, span int, desc bool) []int64 {
+	var ts []int64
+	for d := -span; d <= span; d++ {
+		ts = append(ts, t+int64(d))
+	}
+	if desc {
+		for i, j := 0, len(ts)-1; i < j; i, j = i+1, j-1 {
+			ts[i], ts[j] = ts[j], ts[i]
+		}
+	}
+	return ts
+}
+
+// what: 0 timeformat, 1 timeattr, 2 buckettime, 3 time
+func seqCase(what int, t int64, z *zoneInfo, f, sub, class string, span int, desc bool) Case {
+	in := c18In{Tz: z.name, Class: class, Dir: "ascending"}
+	if desc {
+		in.Dir = "descending"
+	}
+	ts := seqInstants(t, span, desc)
+	switch what {
+	case 0:
+		in.Kind, in.Fmt = "format", f
+		for _, u := range ts {
+			in.Seq = append(in.Seq, strconv.FormatInt(u, 10))
+		}
+	case 1:
+		in.Kind, in.Sub = "attr", sub
+		for _, u := range ts {
+			in.Seq = append(in.Seq, strconv.FormatInt(u, 10))
+		}
+	default:
+		in.Kind, in.Fmt, in.Sub = "bucket", f, sub
+		if what == 3 {
+			in.Kind, in.Sub = "time", ""
+		}
+		for _, u := range ts {
+			in.Seq = append(in.Seq, time.Unix(u, 0).In(z.loc).Format(layoutOf(f)))
+		}
+	}
+	in.Arg = in.Seq[0]
+	return c18Case(in)
+}
+
+var seqFormats = []string{"RFC3339", "RFC1123", "RFC1123Z", "UNIX", "NGINX", "RFC822", "TIMEZONE", "NTZ", "HOUR", "ANSIC"}
+var seqParseFormats = []string{"ANSIC", "RFC3339", "RFC1123", "UNIX", "RFC1123Z", "NGINX"}
+var seqAttrs = []string{"yearweek", "week", "weekday", "quarter"}
+var seqBuckets = []string{"hours", "days", "months", "years", "minutes", "seconds"}
+
+func genSeq(r *Rng) Case {
+	buildBreakpoints()
+	b := Pick(r, breakpoints)
+	z := Pick(r, zones)
+	t := b.t
+	if strings.HasPrefix(b.class, "dst-change:") {
+		z = zoneByName[strings.TrimPrefix(b.class, "dst-change:")]
+		b.class = "dst-change"
+	} else if r.Chance(2, 3) {
+		_, off := offsetAt(z.loc, t)
+		t -= off // the boundary in local time
+	}
+	span := 3
+	if r.Chance(1, 5) {
+		span = r.Range(1, 8)
+	}
+	what := r.Intn(4)
+	f := Pick(r, seqFormats)
+	if what >= 2 {
+		f = Pick(r, seqParseFormats)
+	}
+	sub := Pick(r, seqAttrs)
+	if what == 2 {
+		sub = Pick(r, seqBuckets)
+	}
+	return seqCase(what, t, z, f, sub, b.class, span, r.Bool())
+}
+
+// every DST change of 2020/2021 (and the first and last one in range) of every zone x the three expressions x both directions
+func c18SeqExhaustive(tier string) []Case {
+	var cases []Case
+	lo := time.Date(2020, 1, 1, 0, 0, 0, 0, time.UTC).Unix()
+	hi := time.Date(2022, 1, 1, 0, 0, 0, 0, time.UTC).Unix()
+	for _, z := range zones {
+		for i, tr := range z.trans {
+			if !(tier == "thorough" || i == 0 || i == len(z.trans)-1 || (tr >= lo && tr < hi)) {
+				continue
+			}
+			for _, desc := range []bool{false, true} {
+				cases = append(cases, seqCase(0, tr, z, "RFC3339", "", "dst-change", 3, desc))
+				cases = append(cases, seqCase(1, tr, z, "", "weekday", "dst-change", 3, desc))
+				cases = append(cases, seqCase(2, tr, z, "RFC3339", "hours", "dst-change", 3, desc))
+			}
+		}
+	}
+	// calendar breakpoints in local time: new year 2021 (ISO week 53 -> 53 -> 1), a quarter start, a month start
+	for _, z := range zones {
+		for _, d := range []time.Time{time.Date(2021, 1, 1, 0, 0, 0, 0, z.loc), time.Date(2021, 1, 4, 0, 0, 0, 0, z.loc),
+			time.Date(2020, 4, 1, 0, 0, 0, 0, z.loc), time.Date(2020, 3, 1, 0, 0, 0, 0, z.loc)} {
+			for _, desc := range []bool{false, true} {
+				cases = append(cases, seqCase(1, d.Unix(), z, "", "yearweek", "calendar-start", 3, desc))
+				cases = append(cases, seqCase(2, d.Unix(), z, "ANSIC", "months", "calendar-start", 3, desc))
+			}
+		}
+	}
+	return cases
+}
+
 func c18Gen(r *Rng, n int, tier string) []Case {
 	loadZones()
 	cases := c18Exhaustive(tier)
+	cases = append(cases, c18SeqExhaustive(tier)...)
 	base := len(cases)
 	for len(cases) < base+n {
 		var in c18In
+		if r.Chance(2, 25) {
+			cases = append(cases, genSeq(r))
+			continue
+		}
 		switch x := r.Intn(100); {
 		case x < 36:
 			in = genFormat(r)
@@ -733,7 +905,8 @@ func main() {
 			"followed by seeded random: instants = breakpoints (UTC and local month / quarter / year starts 1970..2100, ISO week-1 Mondays, Feb/Mar, every DST change of the zones) displaced by 0/±1 s, whole hours within ±48 h, random seconds within ±2 days, whole days within a week; plus extremes (year 0, 9999, 2^31); " +
 			"zones: utc, Etc/GMT+5, Etc/GMT-14, Asia/Kolkata, America/New_York, Europe/Berlin, Australia/Lord_Howe as available on the host; kinds: timeformat (all named formats, mixed case, raw layouts, bad integers), timeattr (4 attributes, bad names), " +
 			"time with explicit format (strings printed by Go for the instant in the zone, 1/4 mutated: digit, truncation, trailing text, byte, space, fractional second, case, range), buckettime (all bucket names and abbreviations), duration (printed by durationformat, component strings, limits, malformed), durationformat (boundaries, overflow, bad integers). " +
-			"distinct = distinct (kind, argument, format, attribute/bucket, zone); non-trivial = the instant lies within 2 days / 1 week of a calendar or DST breakpoint, or the input is mutated / malformed / a limit.",
+			"sequences (state inside ONE compiled expression reused across instants): {timeformat {0} F Z}, {timeattr {0} A Z}, {buckettime {0} B F Z}, {time {0} F Z} compiled once and evaluated second by second over t-3..t+3 (sometimes up to +-8) around a breakpoint, ascending and descending — exhaustively for every 2020/2021 (+ first/last) DST change of every zone and local new-year / quarter / month starts, and 8% of the random cases; every output of the sequence is compared with the model; a sequence is one case. " +
+			"distinct = distinct (kind, argument or sequence, format, attribute/bucket, zone); non-trivial = the instant lies within 2 days / 1 week of a calendar or DST breakpoint, or the input is mutated / malformed / a limit.",
 		Gen: c18Gen,
 		Replay: func(d json.RawMessage) (Case, error) {
 			var doc struct {
